@@ -36,14 +36,41 @@ def _mk_sparse(eng, b, func, out):
     return None
 
 
+def rec_indices(eng, r):
+    """current index cells of a sparse tensor: `_indices()` hands out its internal storage, so in-place edits count"""
+    t = r.get("indices_t")
+    return eng.sym(t) if t is not None and eng.has(t) else r["indices"]
+
+
+def rec_values(eng, r):
+    t = r.get("values_t")
+    return eng.sym(t) if t is not None and eng.has(t) else r["values"]
+
+
+def _alias_out(eng, b, out, which):
+    sp = b["self"]
+    r = eng.sparse.get(id(sp))
+    if r is None:
+        r = record(eng, sp)
+        eng.sparse[id(sp)] = r
+        eng.keep.append(sp)
+    if eng.has(out):
+        r.setdefault(which + "_t", out)
+        return None  # a second view of storage the engine already tracks
+    cells = rec_indices(eng, r) if which == "indices" else rec_values(eng, r)
+    eng.new(out, cells)
+    r[which + "_t"] = out
+    return None
+
+
 @op("_indices", "indices")
 def _indices(eng, b, func, out):
-    return record(eng, b["self"])["indices"]
+    return _alias_out(eng, b, out, "indices")
 
 
 @op("_values", "values")
 def _values(eng, b, func, out):
-    return record(eng, b["self"])["values"]
+    return _alias_out(eng, b, out, "values")
 
 
 @op("_coalesced_", "_coalesce", "coalesce")
@@ -54,7 +81,7 @@ def _coalesce(eng, b, func, out):
 def to_dense(eng, t):
     r = record(eng, t)
     size = r["size"]
-    idx, val = r["indices"], r["values"]
+    idx, val = rec_indices(eng, r), rec_values(eng, r)
     nnz = idx.shape[1] if idx.ndim == 2 else 0
     out = np.empty(size, dtype=object)
     for d in range(len(size)):
@@ -77,7 +104,7 @@ def sparse_mm(eng, a, o):
         if len(r["size"]) != 2:
             raise UnsupportedOp("sparse mm with batch sparse")
         rows, cols = r["size"]
-        idx, val = r["indices"], r["values"]
+        idx, val = rec_indices(eng, r), rec_values(eng, r)
         D = eng.sym(o)
         nnz = idx.shape[1]
         range_guard(eng, idx[0], rows, False, "sparse.mm rows")
@@ -111,11 +138,11 @@ def _sparse_t(eng, b, func, out):
     else:
         nd = len(r["size"])
         d0, d1 = b["dim0"] % nd, b["dim1"] % nd
-    idx = np.array(r["indices"], dtype=object, copy=True)
+    idx = np.array(rec_indices(eng, r), dtype=object, copy=True)
     idx[[d0, d1]] = idx[[d1, d0]]
     size = list(r["size"])
     size[d0], size[d1] = size[d1], size[d0]
-    eng.sparse[id(out)] = {"indices": idx, "values": r["values"], "size": tuple(size)}
+    eng.sparse[id(out)] = {"indices": idx, "values": np.array(rec_values(eng, r), dtype=object, copy=True), "size": tuple(size)}
     eng.keep.append(out)
     return None
 
